@@ -828,6 +828,59 @@ def gen_fail(rng, m, prof):
             return ["rename", a, b], "fail:rename-existing:%s/%s" % (ra, rb)
         if k == "rm-missing":
             return ["rm", rng.choice(MISSING)], "fail:rm-missing"
+        if k == "header-dt":
+            # a header tag defined exactly once gets a second definition of another datatype (refused at vlevel >= 2),
+            # next to tags that are fine: nothing of the refused line may stay in the header
+            if prof.get("_vlevel", 1) < 2:
+                continue
+            seen = {}
+            for r in m.recs:
+                if r[0] == "H":
+                    for t in r[1:]:
+                        if t[:2] not in ("VN", "TS"):
+                            seen.setdefault(t[:2], []).append(t[3])
+            once = sorted(n for n, d in seen.items() if len(d) == 1)
+            if not once:
+                return ["add", "H\taa:i:%d" % rng.randint(1, 3)], "add:H"
+            n = rng.choice(once)
+            bad = "%s:Z:foo" % n if seen[n][0] != "Z" else "%s:i:7" % n
+            c = ["H\tqq:Z:hello\tbq:i:12\t" + bad, "H\tqr:i:1\t" + bad, "H\t" + bad, "H\t" + bad + "\tqs:i:2"]
+            return ["add", rng.choice(c)], "fail:header-dt"
+        if k == "path-nonsegment":
+            # a path whose third or later segment is the identifier of a line that is not a segment
+            if v != "gfa1":
+                continue
+            other = [n for n in sorted(ids) if m.recs[ids[n]][0] != "S"]
+            free = _unused(rng, m, PATH_IDS)
+            segs = m.ids_of("S")
+            if not other or not free or not segs:
+                continue
+            k2 = rng.randint(2, 4)
+            lst = ["%s%s" % (rng.choice(segs), rng.choice("+-")) for _ in range(k2)] + [rng.choice(other) + "+"]
+            if rng.chance(0.3):
+                lst.append("%s+" % rng.choice(segs))
+            return ["add", "P\t%s\t%s\t*" % (free, ",".join(lst))], "fail:path-nonsegment"
+        if k == "placeholder-def-nonsegment":
+            # the definition of an identifier that so far is only mentioned (a placeholder exists) and that uses,
+            # where a segment is expected, the identifier of a line that is not a segment
+            if v != "gfa2":
+                continue
+            ph = sorted(n for n in (m.mentioned() - set(ids)) if n not in ("*",))
+            other = [n for n in sorted(ids) if m.recs[ids[n]][0] != "S"]
+            if not ph or not other:
+                continue
+            n = rng.choice(ph); x = rng.choice(other); a = _pick_seg(rng, m, prof)
+            if n in (x, a):
+                continue
+            first, second = (a, x) if rng.chance(0.5) else (x, a)
+            c = ["E\t%s\t%s+\t%s-\t0\t5\t5\t10$\t*" % (n, first, second), "G\t%s\t%s+\t%s+\t5\t*" % (n, first, second)]
+            return ["add", rng.choice(c)], "fail:placeholder-def-nonsegment"
+        if k == "rename-invalid":
+            # a new identifier that is no identifier: refused by the field validation at vlevel 3
+            if prof.get("_vlevel", 1) < 3 or not ids:
+                continue
+            a = rng.choice(sorted(ids))
+            return ["rename", a, rng.choice(["a b", "x\ty", "", "a b c"])], "fail:rename-invalid"
         if k == "mention-nonsegment":
             # a line that uses, where a segment is expected, the identifier of a line that is not a segment
             other = [n for n in sorted(ids) if m.recs[ids[n]][0] != "S"]
@@ -960,6 +1013,10 @@ def _closing_steps(rng, m):
     return out
 
 
+# calls that the library refuses at the validation level they are generated for, but that the text model would apply
+NOAPPLY = {"fail:header-dt", "fail:rename-invalid"}
+
+
 def gen_history(rng, v, nsteps, prof, max_total=None):
     m = TextModel(v)
     hist, labels = [], []
@@ -980,7 +1037,8 @@ def gen_history(rng, v, nsteps, prof, max_total=None):
                 got = (["add", g[0]], g[1]) if g else (["add", "# filler"], "add:#")
         step, lab = got
         hist.append(step); labels.append(lab)
-        m.apply(step)
+        if lab not in NOAPPLY:
+            m.apply(step)
     if rng.chance(prof["close"]):
         for t in _closing_steps(rng, m):
             if max_total is not None and len(hist) >= max_total:
@@ -997,6 +1055,7 @@ def gen_case(rng, tier, prof, p_unknown=0.0, vlevels=(1,)):
         prof = profile(**{k: v for k, v in prof.items() if k not in ("ops", "fails")})
         prof["ops"] = dict(prof["ops"])
         prof["fails"] = dict(prof["fails"], malformed=0, **{"empty-line": 0})
+    prof = dict(prof, _vlevel=vlevel)
     maxs = 25 if tier == "quick" else 60
     nsteps = rng.randint(4, maxs - 5) if rng.chance(0.5) else rng.randint(4, 14)
     hist, labels = gen_history(rng, flavour, nsteps, prof, max_total=maxs)
